@@ -55,41 +55,106 @@ class MemTimeline:
 # ----------------------------------------------------------------------------------------------- generator
 
 
-def gen_case(rng, layout_name, *, n_tempo=None, long_bpm=False, density=None):
+#: tempo values whose quarter beat is a whole number of ms: charts whose times are all integers (int-typed columns)
+INT_BPM = ["60", "120", "150", "200", "75", "100", "125", "300"]
+TITLES = ["", "a title", "題名", "a:b#c // d", "Title with  two spaces", "海の道 〜remix〜", "題名　第二", "tab\tinside", "表ソ能"]
+SAMPLE_NAMES = ["snd {k}.wav", "snd {k}.wav", "音 {k}.wav", "se:{k}#x.wav", "ｓｅ〜{k}.ogg", "dir/sub {k}.WAV"]
+MISC_POOL = [("GENRE", "g x"), ("TOTAL", "300"), ("SUBTITLE", "[ANOTHER] 〜"), ("PLAYER", "1"), ("STAGEFILE", "bg image.png"), ("rank", "3")]
+NOTE_SHAPES = ("both", "no_hits", "no_holds", "none", "one_hit", "one_hold")
+LABEL_MODES = ("default", "default", "default", "gappy_rev", "offset", "rev", "perm", "sorted")
+CALLS = ("kw", "kw", "positional", "class", "default_layout")
+HISTORIES = ("fresh", "fresh", "fresh", "second_write", "after_other")
+
+
+def _labels_for(rng, n, mode):
+    """explicit row labels of a list with n rows (JSON-able), or 'default' / 'sorted'"""
+    if n == 0 or mode in ("default", "sorted"):
+        return mode
+    if mode == "gappy_rev":
+        return [3 * i + 2 for i in range(n)][::-1]
+    if mode == "offset":  # as a filter that cut the head of a longer list leaves them
+        k = rng.choice([1, 7, 100])
+        return list(range(k, k + n))
+    if mode == "rev":
+        return list(range(n - 1, -1, -1))
+    lab = list(range(n))
+    rng.shuffle(lab)
+    return lab
+
+
+def gen_case(rng, layout_name, *, n_tempo=None, long_bpm=False, density=None, notes=None, far=None, int_ms=None, placeholder=None, lnobj=None,
+             history=None, call=None, via_file=None, labels=None, empty_via=None):
+    """one chart + the way it is written.  Every dimension that is not forced by the caller is a mixture on `rng`."""
     lanes = sorted(note_lanes(layout_of(layout_name)).values())
+    notes = notes if notes is not None else (rng.choice(NOTE_SHAPES[1:]) if rng.random() < 0.22 else "both")
+    int_ms = (rng.random() < 0.1 and not long_bpm) if int_ms is None else int_ms
+    far = (rng.random() < 0.08) if far is None else far
     n_tempo = n_tempo if n_tempo is not None else rng.choice([1, 1, 2, 2, 3, 4, 6])
     measures = [0]
     for _ in range(n_tempo - 1):
-        measures.append(measures[-1] + rng.choice([1, 1, 2, 3]))
-    pool = BPM_POOL + (BPM_LONG if long_bpm else [])
+        measures.append(measures[-1] + (rng.choice([40, 90, 150]) if far else rng.choice([1, 1, 2, 3])))
+    pool = INT_BPM if int_ms else BPM_POOL + (BPM_LONG if long_bpm else [])
     tempo = [[m, rng.choice(pool)] for m in measures]
     if long_bpm and not any(b in BPM_LONG for _, b in tempo):
         tempo[rng.randrange(len(tempo))][1] = rng.choice(BPM_LONG)
-    total = measures[-1] + rng.choice([1, 2, 3])
+    total = measures[-1] + (rng.choice([1, 30, 200]) if far else rng.choice([1, 2, 3]))
+    total = min(total, 999)
     tl = MemTimeline(tempo)
 
-    lnobj = rng.choice(["ZZ", "ZZ", "ZY", "0Z"])
+    # ---- the way write() is called: placeholder id for unknown samples, LN end id, entry point
+    if placeholder is None:
+        placeholder = b36(rng.randrange(1, 1296)).decode() if rng.random() < 0.3 else ""
+    if placeholder in ("", "01"):
+        lnobj = lnobj or rng.choice(["ZZ", "ZZ", "ZY", "0Z", "zz"])
+    else:
+        # an own placeholder is what lets a chart use 01 as its LN end id
+        lnobj = lnobj or rng.choice(["01", "01", "ZZ", "0Z", "1A"])
+        if placeholder.upper() == lnobj.upper():
+            placeholder = "X7" if lnobj.upper() != "X7" else "X8"
     n_s = rng.randrange(0, 6)
     ids = set()
     while len(ids) < n_s:
         i = b36(rng.randrange(1, 1296)).decode()
-        if i != lnobj:
+        if i != lnobj.upper():
             ids.add(i)
-    samples = {i: f"snd {k}.wav" for k, i in enumerate(sorted(ids))}
+    if rng.random() < 0.1:
+        ids = {i.lower() for i in ids}  # ids are names: lower-case ones are as good as upper-case ones
+    name = rng.choice(SAMPLE_NAMES)
+    samples = {i: name.format(k=k) for k, i in enumerate(sorted(ids))}
 
     objs = []  # dict(kind, col, beat (text of a Fraction | None), t, len, grid, sample)
     density = density if density is not None else rng.choice([2, 4, 8, 16])
     # half of the charts crowd their objects into a window of 1..2 measures (several objects per written line)
     w0 = rng.randrange(0, total) if rng.random() < 0.5 else 0
     w1 = min(total, w0 + rng.choice([1, 2])) if rng.random() < 0.5 or w0 else total
-    for col in rng.sample(lanes, rng.randrange(1, min(len(lanes), 6) + 1)):
+    p_hold = {"no_holds": 0.0, "one_hit": 0.0, "no_hits": 1.0, "one_hold": 1.0}.get(notes, 0.4)
+    prev = []
+    dens = (1, 2, 4) if int_ms else GRID_DENS
+    for col in rng.sample(lanes, rng.randrange(1, min(len(lanes), 6) + 1)) if notes != "none" else []:
         pos = []
         for _ in range(rng.randrange(1, density + 1)):
-            if rng.random() < 0.6:
-                d = rng.choice(GRID_DENS)
+            r = rng.random()
+            if r < 0.6 or int_ms:
+                d = rng.choice(dens)
                 pos.append((Fraction(rng.randrange(4 * w0 * d, 4 * w1 * d), d), True))
-            else:
+            elif r < 0.88:
                 pos.append((Fraction(rng.randrange(4 * w0 * 10**6, 4 * w1 * 10**6), 10**6), False))  # arbitrary time
+            elif r < 0.94:
+                # a hair beside a grid point (float noise of an editor)
+                d = rng.choice(GRID_DENS)
+                pos.append((Fraction(rng.randrange(4 * w0 * d, 4 * w1 * d), d) + Fraction(rng.randrange(1, 10), 10**7), False))
+            else:
+                # half way between two neighbouring 1/192 positions
+                pos.append((Fraction(2 * rng.randrange(4 * w0 * 192, 4 * w1 * 192) + 1, 384), False))
+        # boundaries and ties: time 0, exactly on a tempo point / measure line, the same times as the previous lane (chords)
+        if rng.random() < 0.25:
+            pos.append((Fraction(0), True))
+        if rng.random() < 0.3:
+            pos.append((Fraction(4 * rng.choice(measures)), True))
+        if rng.random() < 0.15:
+            pos.append((Fraction(4 * rng.randrange(w0, w1)), True))
+        if prev and rng.random() < 0.3:
+            pos.extend(rng.sample(prev, rng.randrange(1, len(prev) + 1)))
         pos.sort()
         kept = []
         for p, g in pos:
@@ -97,61 +162,155 @@ def gen_case(rng, layout_name, *, n_tempo=None, long_bpm=False, density=None):
                 g = True
             if not kept or p - kept[-1][0] >= MIN_GAP:
                 kept.append((p, g))
+        if notes in ("one_hit", "one_hold"):
+            kept = kept[: (1 if notes == "one_hit" else 2)] if not objs else []
+        prev = list(kept)
         i = 0
         while i < len(kept):
             p, g = kept[i]
             smp = rng.choice(list(samples.values()) + ["", "not in table.wav"])
             t = float(tl.ms_of_beat(p))
-            if i + 1 < len(kept) and rng.random() < 0.4:
+            if i + 1 < len(kept) and rng.random() < p_hold:
                 p2, g2 = kept[i + 1]
                 t2 = float(tl.ms_of_beat(p2))
                 objs.append(dict(kind="hold", col=col, t=t, len=t2 - t, grid=bool(g), grid_tail=bool(g2), beat=str(p) if g else None, beat_tail=str(p2) if g2 else None, sample=smp))
                 i += 2
-            else:
+            elif p_hold < 1.0:
                 objs.append(dict(kind="hit", col=col, t=t, grid=bool(g), beat=str(p) if g else None, sample=smp))
                 i += 1
+            else:
+                i += 1  # a chart of long notes only: the odd position out is left empty
     rng.shuffle(objs)
-    meta = dict(title=rng.choice(["", "a title", "題名"]), artist=rng.choice(["", "someone"]), version=rng.choice(["", "12"]), as_bytes=rng.random() < 0.5)
+    meta = dict(title=rng.choice(TITLES), artist=rng.choice(["", "someone", "作曲者 feat. X / obj:Y"]), version=rng.choice(["", "12"]), as_bytes=rng.random() < 0.5)
+    misc = {}
+    for k, v in rng.sample(MISC_POOL, rng.choice([0, 0, 1, 3])):
+        misc[k] = dict(value=v, as_bytes=rng.random() < 0.5)
     order = list(range(len(tempo)))
     if len(order) > 1 and rng.random() < 0.35:
         rng.shuffle(order)
-    return dict(layout=layout_name, tempo=tempo, lnobj=lnobj, samples=samples, objs=objs, meta=meta, tempo_row_order=order,
-                labels="gappy" if rng.random() < 0.3 else "default", via_file=rng.random() < 0.15)
+    n_hit, n_hold = sum(o["kind"] == "hit" for o in objs), sum(o["kind"] == "hold" for o in objs)
+    if labels is None:
+        labels = dict(bpms=_labels_for(rng, len(tempo), rng.choice(LABEL_MODES)), hits=_labels_for(rng, n_hit, rng.choice(LABEL_MODES)),
+                      holds=_labels_for(rng, n_hold, rng.choice(LABEL_MODES)))
+    num = "float"
+    if int_ms and all(float(x).is_integer() for o in objs for x in (o["t"], o.get("len", 0.0))) and all(x.is_integer() for x in tl.off_f):
+        num = "int"
+    elif rng.random() < 0.25:
+        num = "numpy"
+    history = history or rng.choice(HISTORIES)
+    call = call or rng.choice(CALLS)
+    if call == "default_layout" and layout_name != "BME":
+        call = "kw"
+    case = dict(layout=layout_name, tempo=tempo, lnobj=lnobj, samples=samples, objs=objs, meta=meta, tempo_row_order=order, labels=labels,
+                via_file=(rng.random() < 0.2) if via_file is None else via_file, path_kind=rng.choice(["str", "Path"]), misc=misc, num=num,
+                no_sample_default=placeholder or None, call=call, history=history, empty_via=empty_via or rng.choice(["ctor", "filter"]),
+                lnobj_set=not (lnobj == "ZZ" and rng.random() < 0.3))
+    if history == "after_other":
+        # another chart that is built and written first, and stays alive, in the same process
+        case["other"] = gen_case(rng, rng.choice(LAYOUT_NAMES), n_tempo=rng.choice([1, 2, 3]), density=2, history="fresh", via_file=False)
+    return case
+
+
+def _relabel(lst, lab):
+    """the same rows under other row labels (row labels of a list are arbitrary: sorts, filters and edits leave them non-default)"""
+    if len(lst) == 0 or lab in (None, "default"):
+        return lst
+    if lab == "sorted":
+        return lst.sorted()  # rows in time order, labels permuted
+    if lab == "gappy":  # (cases saved before the labels became explicit)
+        lab = [3 * i + 2 for i in range(len(lst))][::-1]
+    if isinstance(lab, list) and len(lab) == len(lst):
+        return type(lst)(lst.df.set_axis(lab))
+    return lst
+
+
+def _filtered_empty(cls, item):
+    """an empty list as a filter leaves it (every row cut away), not as the constructor makes it"""
+    return cls([item]).after(1e15)
 
 
 def build_map(case):
+    import numpy as np
     from reamber.bms import BMSMap, BMSHit, BMSHold
     from reamber.bms.BMSBpm import BMSBpm
     from reamber.bms.lists import BMSBpmList
     from reamber.bms.lists.notes import BMSHitList, BMSHoldList
 
     tl = MemTimeline(case["tempo"])
+    num = case.get("num", "float")
+    fl = (lambda x: np.float64(x)) if num == "numpy" else float
+    it = (lambda x: np.int64(x)) if num == "numpy" else int
     m = BMSMap()
-    bpm_rows = [BMSBpm(offset=o, bpm=b, metronome=4) for o, b in zip(tl.off_f, tl.bpm_f)]
+    bpm_rows = [BMSBpm(offset=fl(o), bpm=fl(b), metronome=4) for o, b in zip(tl.off_f, tl.bpm_f)]
     # a chart is a set of timed objects: the tempo rows may be stored in any order (append without sort)
     perm = case.get("tempo_row_order")
     if perm is not None and len(perm) == len(bpm_rows):
         bpm_rows = [bpm_rows[i] for i in perm]
-    m.bpms = BMSBpmList(bpm_rows)
-    if case.get("labels") == "gappy" and len(bpm_rows):
-        # the row labels of a list are arbitrary (after rate / stack edits / filters they are not 0..n-1)
-        m.bpms = BMSBpmList(m.bpms.df.set_axis([3 * i + 2 for i in range(len(bpm_rows))][::-1]))
-    m.hits = BMSHitList([BMSHit(offset=o["t"], column=o["col"], sample=o["sample"].encode("shift_jis")) for o in case["objs"] if o["kind"] == "hit"])
-    m.holds = BMSHoldList([BMSHold(offset=o["t"], column=o["col"], length=o["len"], sample=o["sample"].encode("shift_jis")) for o in case["objs"] if o["kind"] == "hold"])
+    labels = case.get("labels")
+    if not isinstance(labels, dict):
+        labels = dict(bpms=labels)  # (older cases: one mode, for the tempo list)
+    m.bpms = _relabel(BMSBpmList(bpm_rows), labels.get("bpms"))
+    hits = [BMSHit(offset=fl(o["t"]), column=it(o["col"]), sample=o["sample"].encode("shift_jis")) for o in case["objs"] if o["kind"] == "hit"]
+    holds = [BMSHold(offset=fl(o["t"]), column=it(o["col"]), length=fl(o["len"]), sample=o["sample"].encode("shift_jis")) for o in case["objs"] if o["kind"] == "hold"]
+    filt = case.get("empty_via") == "filter"
+    m.hits = _relabel(BMSHitList(hits), labels.get("hits")) if hits or not filt else _filtered_empty(BMSHitList, BMSHit(offset=0.0, column=0, sample=b""))
+    m.holds = _relabel(BMSHoldList(holds), labels.get("holds")) if holds or not filt else _filtered_empty(BMSHoldList, BMSHold(offset=0.0, column=0, length=1.0, sample=b""))
+    if num == "int":
+        # whole-millisecond charts held in int-typed columns
+        m.bpms = BMSBpmList(m.bpms.df.astype(dict(offset="int64", **({"bpm": "int64"} if all(b.is_integer() for b in tl.bpm_f) else {}))))
+        if hits:
+            m.hits = BMSHitList(m.hits.df.astype(dict(offset="int64")))
+        if holds:
+            m.holds = BMSHoldList(m.holds.df.astype(dict(offset="int64", length="int64")))
     m.samples = {k.encode(): v.encode("shift_jis") for k, v in case["samples"].items()}
-    m.ln_end_channel = case["lnobj"].encode()
+    if case.get("lnobj_set", True):
+        m.ln_end_channel = case["lnobj"].encode()
     enc = (lambda s: s.encode("shift_jis")) if case["meta"]["as_bytes"] else (lambda s: s)
     m.title, m.artist, m.version = enc(case["meta"]["title"]), enc(case["meta"]["artist"]), enc(case["meta"]["version"])
+    for k, v in (case.get("misc") or {}).items():
+        if v["as_bytes"]:
+            m.misc[k.encode()] = v["value"].encode("shift_jis")
+        else:
+            m.misc[k] = v["value"]
     return m, tl
 
 
-def write_real(case):
+def _call_write(m, case, path=None):
+    """write() / write_file() the way the case says: keyword, positional, through the class, layout left at its default (BME)"""
+    from reamber.bms import BMSMap
+
+    lay = layout_of(case["layout"])
+    nsd = case.get("no_sample_default")
+    nsd = nsd.encode() if nsd else None
+    call = case.get("call", "kw")
+    head = [] if path is None else [path]
+    if call == "positional":
+        args, kw = head + [lay] + ([nsd] if nsd is not None else []), {}
+    elif call == "default_layout" and case["layout"] == "BME":
+        args, kw = head, (dict(no_sample_default=nsd) if nsd is not None else {})
+    else:
+        args, kw = head, dict(note_channel_config=lay, **(dict(no_sample_default=nsd) if nsd is not None else {}))
+    if call == "class":
+        return (BMSMap.write if path is None else BMSMap.write_file)(m, *args, **kw)
+    return (m.write if path is None else m.write_file)(*args, **kw)
+
+
+def write_real(case, keep=None):
     import warnings
 
-    m, tl = build_map(case)
     with warnings.catch_warnings():
         warnings.simplefilter("ignore")
-        return m.write(note_channel_config=layout_of(case["layout"])), tl
+        history = case.get("history", "fresh")
+        if history == "after_other" and case.get("other"):
+            mo, _ = build_map(case["other"])
+            _call_write(mo, case["other"])
+            if keep is not None:
+                keep.append(mo)  # two charts alive at once
+        m, tl = build_map(case)
+        if history == "second_write":
+            # the same chart written before, with another placeholder id: results of two calls do not influence each other
+            m.write(note_channel_config=layout_of(case["layout"]), no_sample_default=b"0X" if case["lnobj"].upper() != "0X" else b"0W")
+        return _call_write(m, case), tl
 
 
 def _active(points, t):
@@ -185,15 +344,17 @@ def run_case(case):
     obs = {}
     fails = []
     lay = layout_of(case["layout"])
+    alive = []
     try:
-        data, tl = write_real(case)
+        data, tl = write_real(case, keep=alive)
     except Exception as e:  # noqa
         return [("write_raises", f"{type(e).__name__}: {e}")], obs
     if not isinstance(data, (bytes, bytearray)):
         return [("write_raises", f"write returned {type(data).__name__}, not bytes")], obs
     if case.get("via_file"):
-        # write_file(path, layout) must put exactly write(layout) into the file
+        # write_file(path, layout[, placeholder]) must put exactly write(layout[, placeholder]) into the file
         import os
+        import pathlib
         import tempfile
         import warnings
 
@@ -203,7 +364,7 @@ def run_case(case):
         try:
             with warnings.catch_warnings():
                 warnings.simplefilter("ignore")
-                m2.write_file(path, note_channel_config=lay)
+                _call_write(m2, case, path=pathlib.Path(path) if case.get("path_kind") == "Path" else path)
             with open(path, "rb") as f:
                 got = f.read()
             if got != bytes(data):
@@ -247,6 +408,15 @@ def run_case(case):
         fails.append(("object_merged_or_dropped", f"file denotes {len(den.hits)} hits + {len(den.holds)} holds, chart has {len(hits)} + {len(holds)}"))
         return fails, obs
     sample_id = {v.encode("shift_jis"): k.encode() for k, v in case["samples"].items()}
+    # which id an object WITHOUT a known sample gets is not part of the statement: only observed (write()'s own documentation
+    # says: the id passed as no_sample_default)
+    placeholder = (case.get("no_sample_default") or "01").encode()
+
+    def observe_unknown(o, oid):
+        if o["sample"].encode("shift_jis") not in sample_id:
+            obs["unknown_sample_objects"] = obs.get("unknown_sample_objects", 0) + 1
+            if oid != placeholder:
+                obs["unknown_sample_objects_not_written_with_the_placeholder"] = obs.get("unknown_sample_objects_not_written_with_the_placeholder", 0) + 1
 
     def cmp_time(kind, col, t_mem, on_grid, beat_txt, beat_w, ms_w):
         """one written position against one in-memory time"""
@@ -277,6 +447,7 @@ def run_case(case):
             if want_id is not None and oid != want_id:
                 fails.append(("known_sample_id", f"hit col {col} at {o['t']} ms has sample {o['sample']!r} = #WAV{want_id.decode()} but is written as object {oid.decode()}"))
                 break
+            observe_unknown(o, oid)
         for o, (c, ms, ln_ms, smp, hb, tb, oid) in zip(ml, wl):
             r = cmp_time("hold_head", col, o["t"], o["grid"], o["beat"], hb, ms)
             r = r or cmp_time("hold_tail", col, o["t"] + o["len"], o["grid_tail"], o["beat_tail"], tb, ms + ln_ms)
@@ -287,6 +458,7 @@ def run_case(case):
             if want_id is not None and oid != want_id:
                 fails.append(("known_sample_id", f"hold col {col} at {o['t']} ms has sample {o['sample']!r} = #WAV{want_id.decode()} but its head is object {oid.decode()}"))
                 break
+            observe_unknown(o, oid)
     return fails, obs
 
 
@@ -313,7 +485,7 @@ def _grid_cases():
 
 
 def _many_tempo_case(rng, n):
-    c = gen_case(rng, "BME", n_tempo=2, density=8)
+    c = gen_case(rng, "BME", n_tempo=2, density=8, int_ms=False, far=False, notes="both", labels=dict(bpms="default", hits="default", holds="default"))
     pool = BPM_POOL
     c["tempo"] = [[m, pool[(m * 7) % len(pool)]] for m in range(n)]  # one tempo point on every measure line 0..n-1
     tl = MemTimeline(c["tempo"])
@@ -330,23 +502,95 @@ def _many_tempo_case(rng, n):
     return c
 
 
+def _edge_cases(rng):
+    """a fixed family (whatever the seed): every layout x charts lacking one kind of object / any object, with 1..4 tempo points,
+    empty lists made by the constructor and by a filter; own placeholder id with 01 as LN end id, through write() and write_file();
+    every way of calling; every history; int-typed and numpy-typed columns; far measures"""
+    for name in LAYOUT_NAMES:
+        for notes in NOTE_SHAPES[1:]:
+            for n_tempo, via in ((1, "ctor"), (2, "filter"), (4, "ctor")):
+                yield gen_case(rng, name, notes=notes, n_tempo=n_tempo, empty_via=via, far=False)
+        for via_file in (False, True):
+            yield gen_case(rng, name, placeholder=b36(rng.randrange(2, 1296)).decode(), lnobj="01", via_file=via_file, density=4)
+        for call in CALLS[1:]:
+            yield gen_case(rng, name, call=call, via_file=rng.random() < 0.5)
+        for history in HISTORIES[2:]:
+            yield gen_case(rng, name, history=history)
+        yield gen_case(rng, name, int_ms=True, far=False)
+        yield gen_case(rng, name, far=True, n_tempo=rng.choice([2, 3, 5]))
+        yield gen_case(rng, name, notes="none", far=True, n_tempo=3)
+
+
+def _dims(case):
+    """which of the enumerated dimensions a case exercises (for the evidence)"""
+    kinds = {o["kind"] for o in case["objs"]}
+    lab = case.get("labels") if isinstance(case.get("labels"), dict) else {}
+    d = []
+    d.append("notes:" + ("none" if not kinds else "hits_only" if kinds == {"hit"} else "holds_only" if kinds == {"hold"} else "both"))
+    if not kinds and len(case["tempo"]) > 1:
+        d.append("no_notes_with_tempo_changes")
+    if len(case["objs"]) == 1:
+        d.append("one_object")
+    for k in ("bpms", "hits", "holds"):
+        if lab.get(k) not in (None, "default"):
+            d.append(f"labels_{k}_non_default")
+    if case.get("no_sample_default"):
+        d.append("own_placeholder")
+        if case["lnobj"] == "01":
+            d.append("own_placeholder_and_lnobj_01")
+        if any(o["kind"] == "hold" and o["sample"] not in case["samples"].values() for o in case["objs"]):
+            d.append("own_placeholder_and_hold_with_unknown_sample")
+    d.append("call:" + case.get("call", "kw"))
+    d.append("history:" + case.get("history", "fresh"))
+    d.append("num:" + case.get("num", "float"))
+    if case.get("via_file"):
+        d.append("write_file:" + case.get("path_kind", "str"))
+    if case["tempo"][-1][0] >= 40:
+        d.append("far_measures")
+    if any(o["t"] == 0.0 for o in case["objs"]):
+        d.append("object_at_time_0")
+    if case.get("misc"):
+        d.append("extra_header_entries")
+    if not case.get("lnobj_set", True):
+        d.append("lnobj_left_at_class_default")
+    if any(k != k.upper() for k in case["samples"]):
+        d.append("lower_case_ids")
+    times = {}
+    for o in case["objs"]:
+        times.setdefault(o["t"], set()).add(o["col"])
+    if any(len(v) > 1 for v in times.values()):
+        d.append("chord_same_time_in_two_lanes")
+    return d
+
+
 @bounded("C05", note="in-memory charts written by the real BMSMap.write(note_channel_config) and re-interpreted by the independent BMS interpreter den_bms: objects, lanes, times, tempo timeline, line syntax; all five layouts")
 def bms_write_vs_interpreter(rep):
     rng = rep.rng
     N = rep.n(300, 2000)
     big = rep.n(300, 1000)
     grid = list(_grid_cases())
+    edge = list(_edge_cases(rng))
     rep.bound = (
-        f"grid: {len(grid)} single-object charts (5 layouts x every column x hit|hold x on|off grid after a tempo change); random: {N} charts over 5 layouts, 1..6 tempo points on measure lines "
-        f"(bpm pool of {len(BPM_POOL)} values with <= 3 decimals), 1..6 columns of the layout, 1..16 objects per column (half of the charts: all inside a 1..2 measure window) on the grid (denominators {GRID_DENS}) and at arbitrary times (1e-6 beat raster), "
-        f">= 1/24 beat apart within a lane, 40% long notes, samples known / unknown / empty, str and bytes metadata; 1 chart with {big} tempo points (one per measure line); 1/10 of the charts with > 3-decimal bpms (tempo tolerance 0.0005 there)"
+        f"grid: {len(grid)} single-object charts (5 layouts x every column x hit|hold x on|off grid after a tempo change); edge: {len(edge)} charts (5 layouts x [no hits | no holds | no notes at all | one hit | one hold] x 1, 2, 4 tempo points "
+        f"with empty lists from the constructor / left by a filter; own placeholder id + LN end id 01 through write() and write_file(); positional / class / default-layout calls; second write of one chart, another chart written before; "
+        f"int-typed whole-ms columns; measures up to 999); random: {N} charts over 5 layouts, 1..6 tempo points on measure lines "
+        f"(bpm pool of {len(BPM_POOL)} values with <= 3 decimals), 1..6 columns of the layout, 1..16 objects per column (half of the charts: all inside a 1..2 measure window) on the grid (denominators {GRID_DENS}) and off it (1e-6 beat raster, "
+        f"1e-7 beat beside a grid point, half way between two 1/192 positions), >= 1/24 beat apart within a lane, objects at time 0 / on tempo points / on measure lines / at the same time in several lanes, 40% long notes, "
+        f"samples known / unknown / empty (non-ASCII and ':' '#' in file names, 1/10 lower-case ids), str and bytes metadata (Shift-JIS multi-byte incl. wave dash, full-width space, 0x5C trail bytes; tab, ':' '#' '//' inside), extra header entries; "
+        f"mixtures: 22% charts lacking a kind of object (no hits / no holds / no notes / exactly one), row labels of EACH of the tempo, hit and hold lists default / gappy reversed / offset / reversed / permuted / permuted by sorted() (3/8 default), "
+        f"tempo rows out of time order (35%), 30% own no_sample_default id (then LN end id 01 in 40%), calls keyword / positional / via the class / layout defaulted, 20% write_file (str and pathlib paths), "
+        f"40% with a history (the same chart written before with another placeholder; another chart built and written before and still alive), 10% int-typed whole-ms columns, 25% numpy scalars, 8% tempo points 40..150 measures apart; "
+        f"1 chart with {big} tempo points (one per measure line); 1/10 of the charts with > 3-decimal bpms (tempo tolerance 0.0005 there)"
     )
-    rep.rule = "a case is one chart + layout; non-trivial when it has >= 2 objects or >= 2 tempo points"
+    rep.rule = "a case is one chart + layout + the way write is called; non-trivial when it has >= 2 objects or >= 2 tempo points"
     seen = {}
-    observed = dict(bpm_rounded_to_3_decimals_cases=0, bpm_rounded_to_3_decimals_max_dev=0.0)
+    dims = {}
+    observed = dict(bpm_rounded_to_3_decimals_cases=0, bpm_rounded_to_3_decimals_max_dev=0.0, unknown_sample_objects=0, unknown_sample_objects_not_written_with_the_placeholder=0)
 
     def one(case):
         rep.case(case, nontrivial=len(case["objs"]) >= 2 or len(case["tempo"]) >= 2)
+        for d in _dims(case):
+            dims[d] = dims.get(d, 0) + 1
         fails, obs = run_case(case)
         for what, d in fails:
             seen[what] = seen.get(what, 0) + 1
@@ -354,9 +598,15 @@ def bms_write_vs_interpreter(rep):
         if "bpm_rounded_to_3_decimals_max_dev" in obs:
             observed["bpm_rounded_to_3_decimals_cases"] += 1
             observed["bpm_rounded_to_3_decimals_max_dev"] = max(observed["bpm_rounded_to_3_decimals_max_dev"], obs["bpm_rounded_to_3_decimals_max_dev"])
+        for k in ("unknown_sample_objects", "unknown_sample_objects_not_written_with_the_placeholder"):
+            observed[k] += obs.get(k, 0)
 
     for case in grid:
         if rep.out_of_time(15, 120):
+            break
+        one(case)
+    for case in edge:
+        if rep.out_of_time(25, 180):
             break
         one(case)
     one(_many_tempo_case(rng, big))
@@ -364,6 +614,7 @@ def bms_write_vs_interpreter(rep):
         if rep.out_of_time(40, 420):
             break
         one(gen_case(rng, LAYOUT_NAMES[i % 5], long_bpm=(i % 10 == 9)))
+    rep.extra["cases_per_dimension"] = dict(sorted(dims.items()))
 
     # documented limit: "up to 1295 tempo points".  Tempo points sit on distinct measure lines, the format has
     # measures 000..999, so more than 1000 points cannot be written at all; what the writer does at the documented
